@@ -20,15 +20,12 @@ PINNED = [
     "num_eq_refl", "num_eq_sym", "num_lt_irrefl", "num_lt_trans", "num_trichotomy", "num_eq_trans_refuted",
     "str_lt_strict_total",
     "vne_is_negb_veq", "veq_refl", "veq_sym",
-    "key_eq_is_veq", "hash_respects_eq_refuted", "key_identity", "key_identity_refuted",
+    "key_eq_is_veq", "hash_respects_eq", "key_identity", "key_identity_mixed",
     "map_order", "index_assign_panics",
     "alias_shared", "copy_top_independent", "deep_copy_independent", "immutables_frozen",
     "sort_sorted_perm", "compare_values_preorder_refuted",
 ]
 
-KNOWN_A = ("C14a equal keys with different hashes (KNumber::hash hashes to_bits: 1 vs 1.0, 0.0 vs -0.0, 0 vs -0.0, "
-           "tuples of those): `m.get`/`insert`/`remove`/map `==` disagree with `==` on the keys in maps with more "
-           "than one entry")
 KNOWN_B = ("C14b `m[i] = (k, v)` panics (vm.rs run_index_assign: swap_indices out of bounds) when k is already the "
            "key of another entry of m")
 KNOWN_C = "C14c `x.extend x` on a list or map panics (RefCell already mutably borrowed)"
@@ -380,10 +377,10 @@ def check_pool(chk, name, pool, impl, model, sorts, ksorts, model_sorts, model_k
             for j in range(n):
                 stats["pairs"] += 1
                 if mt[i][j] != I_[opn][i][j]:
-                    # map equality goes through lookups: inside the hash-conflict class the hash table's
-                    # answer is not determined by koto's code
+                    # map equality goes through lookups: with keys that are `==` to a common key but not to each
+                    # other (integers beyond 2^53, C14e) the entry a lookup finds depends on the hash table's layout
                     if opn in ("eq", "ne") and pool_conflict(pool[i], pool[j]):
-                        chk.known(KNOWN_A)
+                        chk.known(KNOWN_E)
                         continue
                     disagreements.append({"what": f"`{opn}` table", **witness(i, j), "model": mt[i][j], "impl": I_[opn][i][j]})
     for i in range(n):
@@ -397,6 +394,8 @@ def check_pool(chk, name, pool, impl, model, sorts, ksorts, model_sorts, model_k
                     disagreements.append({"what": "hashable pair", **witness(i, j)})
                 continue
             keq, kcmp, heq, g1, gn, conf = mk
+            if conf:
+                disagreements.append({"what": "the model has equal keys with different hasher input", **witness(i, j)})
             ii = {"keq": int(impl["keq"][i][j]), "kcmp": impl["kcmp"][i][j],
                   "heq": int(impl["hash"][i] == impl["hash"][j]), "get1": impl["get1"][i][j], "getn": impl["getn"][i][j]}
             mm = {"keq": keq, "kcmp": kcmp, "heq": heq, "get1": g1, "getn": gn}
@@ -411,9 +410,6 @@ def check_pool(chk, name, pool, impl, model, sorts, ksorts, model_sorts, model_k
                         disagreements.append({"what": "equal hasher input, different hash", **witness(i, j)})
                     continue
                 if mm[f] != ii[f]:
-                    if conf and f in ("getn", "insn", "remn", "ins1"):
-                        chk.known(KNOWN_A)   # hashbrown's answer depends on 7-bit tags here
-                        continue
                     disagreements.append({"what": f"key table `{f}`", **witness(i, j), "model": mm[f], "impl": ii[f]})
 
     # ---- D: the clauses on the implementation's own tables
@@ -426,7 +422,7 @@ def check_pool(chk, name, pool, impl, model, sorts, ksorts, model_sorts, model_k
                 fails.append({"clause": "`!=` is the negation of `==`", **witness(i, j), "impl": [eq[i][j], ne[i][j]]})
             if not nan[i] and not nan[j] and eq[i][j] != eq[j][i]:
                 if pool_conflict(pool[i], pool[j]):
-                    chk.known(KNOWN_A)
+                    chk.known(KNOWN_E)
                 else:
                     fails.append({"clause": "`==` is symmetric on NaN-free data", **witness(i, j), "impl": [eq[i][j], eq[j][i]]})
             ordered = (isnum[i] and isnum[j] and not nan[i] and not nan[j]) or (isstr[i] and isstr[j])
@@ -466,31 +462,21 @@ def check_pool(chk, name, pool, impl, model, sorts, ksorts, model_sorts, model_k
                 continue
             stats["key_pairs"] += 1
             e = eq[i][j]
-            conf = m_keys[i][j][5] if m_keys[i][j] else 0
             if int(impl["keq"][i][j]) != e:
                 fails.append({"clause": "ValueKey equality is `==`", **witness(i, j)})
             if e and impl["hash"][i] != impl["hash"][j]:
-                if conf:
-                    chk.known(KNOWN_A)
-                else:
-                    fails.append({"clause": "equal keys have equal hashes", **witness(i, j), "impl": [impl["hash"][i], impl["hash"][j]]})
+                fails.append({"clause": "equal keys have equal hashes", **witness(i, j), "impl": [impl["hash"][i], impl["hash"][j]]})
             for tab in ("get1", "getn"):
                 found = impl[tab][i][j] >= 0
                 if found != bool(e):
-                    if conf:
-                        chk.known(KNOWN_A)
-                    else:
-                        fails.append({"clause": f"a key addresses an entry exactly when it is `==` to the entry's key ({tab})",
-                                      **witness(i, j), "impl": {"found": found, "==": e}})
+                    fails.append({"clause": f"a key addresses an entry exactly when it is `==` to the entry's key ({tab})",
+                                  **witness(i, j), "impl": {"found": found, "==": e}})
             # insert of an equal key updates in place (length unchanged), of a different key appends
             for tab, base in (("ins1", 1), ("insn", 1 + len(FILL))):
                 idx, had, ln = impl[tab][i][j]
                 if bool(had) != bool(e) or ln != (base if e else base + 1):
-                    if conf:
-                        chk.known(KNOWN_A)
-                    else:
-                        fails.append({"clause": f"insert with an equal key updates in place, otherwise appends ({tab})",
-                                      **witness(i, j), "impl": impl[tab][i][j]})
+                    fails.append({"clause": f"insert with an equal key updates in place, otherwise appends ({tab})",
+                                  **witness(i, j), "impl": impl[tab][i][j]})
     # sorts
     for req, r, mr in zip(sorts, impl["sorts"], model_sorts):
         stats["sorts"] += 1
@@ -748,23 +734,29 @@ def num_value(d):
 
 
 def pool_conflict(a, b):
-    """could a `==` / lookup between (parts of) a and b meet two keys that are `==` with different hashes?
-    conservative: some number leaf of a and some number leaf of b are equal as f64 but differ in bits"""
-    la = [x for x in scalar_leaves(a, []) if x[0] in ("i", "f")]
-    lb = [x for x in scalar_leaves(b, []) if x[0] in ("i", "f")]
-    for x in la:
-        for y in lb + la:
+    """could a map `==` between (parts of) a and b meet keys that are `==` as f64 without being the same number
+    (an integer beyond 2^53 next to the float or integer it rounds to: C14e)?  Then `==` on keys is not an
+    equivalence and which entry a lookup finds depends on the hash table."""
+    from fractions import Fraction
+
+    def exact(d):
+        if d[0] == "i":
+            return Fraction(d[1])
+        x = float_of(d)
+        if x != x or x in (float("inf"), float("-inf")):
+            return None
+        return Fraction(x)
+
+    nums = [x for x in scalar_leaves(a, []) + scalar_leaves(b, []) if x[0] in ("i", "f")]
+    for x in nums:
+        for y in nums:
             if x == y:
                 continue
             try:
-                if float_of(x) == float_of(y):
+                if float_of(x) == float_of(y) and exact(x) != exact(y):
                     return True
             except OverflowError:
                 pass
-    for x in lb:
-        for y in lb:
-            if x != y and float_of(x) == float_of(y):
-                return True
     return False
 
 
@@ -1081,7 +1073,7 @@ def corpus_cases():
 
 
 def run_histories(chk, binp, hists, fails, disagreements, stats, model_ok):
-    """hists: list of dict {ops:[(term, body, binds)], names, origin, conflict}"""
+    """hists: list of dict {ops:[(term, body, binds)], names, origin, mixedrepr (1 / 1.0 / -0.0 .. used as keys)}"""
     cf = os.path.join(C.BUILD, "cases", f"c14h-{os.getpid()}.jsonl")
     with open(cf, "w") as f:
         for h in hists:
@@ -1164,13 +1156,7 @@ def run_histories(chk, binp, hists, fails, disagreements, stats, model_ok):
                 stats["hist_panics"] += 1
                 continue
             if panicked:
-                if h["conflict"]:
-                    # equal keys with different hashes: whether the hash table finds the other entry (and then runs
-                    # into C14b) depends on hashbrown's 7-bit tags
-                    chk.known(KNOWN_A)
-                    stats["hist_conflict_divergence"] += 1
-                else:
-                    fails.append({"clause": "container operations do not crash the interpreter", "script": src, "impl": r})
+                fails.append({"clause": "container operations do not crash the interpreter", "script": src, "impl": r})
                 continue
             if r["result"].startswith("E") and r["result"] != "EThrown":
                 # the script itself must not fail (every step is wrapped)
@@ -1187,12 +1173,8 @@ def run_histories(chk, binp, hists, fails, disagreements, stats, model_ok):
                     stats["hist_cut_failed_sort"] += 1
                     break
                 if (1 if mst == 1 else 0) != ist or mcan != iobs:
-                    if h["conflict"]:
-                        chk.known(KNOWN_A)
-                        stats["hist_conflict_divergence"] += 1
-                    else:
-                        disagreements.append({"what": "history step", "script": src, "step": k, "op": opterm,
-                                              "model": [mst, mcan], "impl": [ist, iobs]})
+                    disagreements.append({"what": "history step", "script": src, "step": k, "op": opterm,
+                                          "model": [mst, mcan], "impl": [ist, iobs]})
                     cut = k
                     break
             if cut is None and last_status not in (3, 4) and len(irows) != len(mrows):
@@ -1211,10 +1193,9 @@ def run_histories(chk, binp, hists, fails, disagreements, stats, model_ok):
                 nb += 1
             binders.append(nb)
         first = {}
-        if not h["conflict"]:
-            deep_copy_clause(h["ops"], irows, fails, src)
+        deep_copy_clause(h["ops"], irows, fails, src)
         for k, (ist, iobs) in enumerate(irows):
-            if k > 0 and ist == 0 and not h["conflict"] and k < len(h["ops"]):
+            if k > 0 and ist == 0 and k < len(h["ops"]):
                 opterm = h["ops"][k][0]
                 if opterm.startswith(("(OMapRemove ", "(OMapInsert ", "(OSort ", "(OMapExtend ", "(OMapIdxAssign ")):
                     x = int(opterm.split()[1].rstrip(")"))
@@ -1334,7 +1315,7 @@ def run(tier, seed):
     for c in corpus_cases():
         if "hist" in c:
             hists.append({"ops": [tuple(o) for o in c["hist"]], "names": [Shadow("unk", None, 0)] * 64, "origin": "corpus",
-                          "conflict": c.get("conflict", False)})
+                          "mixedrepr": c.get("conflict", False)})
     n_h = 500 if tier == "quick" else 12000
     for k in range(n_h):
         conflict = rng.chance(1, 6)
@@ -1342,7 +1323,7 @@ def run(tier, seed):
         length = 3 + rng.below(7 if tier == "quick" else 38)
         ops, names = gen_history(rng, length, conflict, mode)
         if ops:
-            hists.append({"ops": ops, "names": names, "origin": mode + ("-conflict" if conflict else ""), "conflict": conflict})
+            hists.append({"ops": ops, "names": names, "origin": mode + ("-mixedrepr" if conflict else ""), "mixedrepr": conflict})
     okh = run_histories(chk, binp, hists, fails, disagreements, stats, model_ok)
     if okh and model_ok:
         chk.oblige("corr:heap model == interpreter on operation histories (every live name after every step)",
